@@ -80,6 +80,9 @@ def same_bits(a, b):
     return type(a) is type(b) and bits_of(a) == bits_of(b)
 
 
+AMBIENT = [None]  # precision of the global mpmath.mp context while judging (None: the default 53 bits)
+
+
 def judge(fa, part, dtname, b, mpctxs, xsrc=None):
     """All conversions for one bit pattern of one dtype."""
     import mpmath
@@ -96,7 +99,8 @@ def judge(fa, part, dtname, b, mpctxs, xsrc=None):
         part["nontrivial"] += 1
 
     def viol(conv, what, extra=""):
-        add_violation(part, f"{conv}:{what}:{c}", f"{conv} {what} for {dtname} bits={b:#x} value={x!r} {extra}", dict(case0, conv=conv))
+        amb = f":ambient-mp.prec={AMBIENT[0]}" if AMBIENT[0] else ""
+        add_violation(part, f"{conv}:{what}:{c}{amb}", f"{conv} {what} for {dtname} bits={b:#x} value={x!r} {extra}" + (f" (global mpmath.mp.prec = {AMBIENT[0]})" if AMBIENT[0] else ""), dict(case0, conv=conv, ambient=AMBIENT[0]))
 
     # ---- fraction
     if c != "nan":
@@ -257,6 +261,18 @@ def w_bits(task):
     ctxs = make_ctxs(dtname)
     for b in task["bits"]:
         judge(fa, part, dtname, int(b), ctxs)
+    # the conversions take their precision from the float type, not from the ambient global mpmath context: repeat a
+    # sub-lattice while mpmath.mp works at a precision below the type's
+    import mpmath as _mp
+
+    for amb in (11, 24):
+        AMBIENT[0] = amb
+        try:
+            with _mp.workprec(amb):
+                for b in list(task["bits"])[:: (5 if dtname == "float16" else 3)]:
+                    judge(fa, part, dtname, int(b), ctxs)
+        finally:
+            AMBIENT[0] = None
     if task.get("cross"):
         src, dst = task["cross"]
         import mpmath
@@ -321,6 +337,15 @@ def replay(case):
         ctx = mpmath.mp.clone()
         ctx.prec = 200
         judge_cross(fa, part, case["dtype"], case["dst"], case["bits"], ctx)
+    elif case.get("ambient"):
+        import mpmath
+
+        AMBIENT[0] = case["ambient"]
+        try:
+            with mpmath.workprec(case["ambient"]):
+                judge(fa, part, case["dtype"], case["bits"], make_ctxs(case["dtype"]))
+        finally:
+            AMBIENT[0] = None
     else:
         judge(fa, part, case["dtype"], case["bits"], make_ctxs(case["dtype"]))
     return [(v["sig"], v["msg"]) for v in part["violations"]]
